@@ -10,8 +10,7 @@ use alloc::string::ToString;
 use alloc::collections::btree_map::BTreeMap;
 
 use chrono::Utc;
-use chrono::{NaiveDate, Datelike};
-use chrono::Timelike;
+use chrono::{NaiveDate, Datelike, Duration, FixedOffset, TimeZone};
 
 use crate::config::SmartCalcConfig;
 use crate::tokinizer::get_date;
@@ -55,12 +54,22 @@ pub fn at_date(config: &SmartCalcConfig, _: &Tokinizer, fields: &BTreeMap<String
             _ => return Err("Date information not valid".to_string())
         };
         
-        //todo: convert timezone informations
-        let (time, _) = match get_number_or_time(config, "time", fields) {
-            Some(number) => number,
-            _ => return Err("Date information not valid".to_string())
+        /* The wall clock time (a bare number is an hour) is put on the date, both in the zone of the date */
+        let wall_time = match get_number("time", fields) {
+            Some(_) => match get_number_or_time(config, "time", fields) {
+                Some((time, _)) => time.time(),
+                _ => return Err("Date information not valid".to_string())
+            },
+            None => match get_number_or_time(config, "time", fields) {
+                Some((time, time_tz)) => FixedOffset::east(time_tz.offset * 60).from_utc_datetime(&time).time(),
+                _ => return Err("Date information not valid".to_string())
+            }
         };
-        return Ok(TokenType::DateTime(date.and_hms(time.hour(), time.minute(), time.second()), date_tz));
+
+        return match date.and_time(wall_time).checked_sub_signed(Duration::minutes(date_tz.offset as i64)) {
+            Some(date_time) => Ok(TokenType::DateTime(date_time, date_tz)),
+            None => Err("Date information not valid".to_string())
+        };
     }
     Err("Date type not valid".to_string())
 }
